@@ -25,6 +25,8 @@ inductive Listen where
   | busy
   /-- host is not an address of this machine -/
   | bad
+  /-- StartTLS: the key pair cannot be loaded -/
+  | cert
   deriving DecidableEq, Repr
 
 /-- when the environment lets an in-flight request finish -/
